@@ -9,6 +9,11 @@
 (b) built-in surface: every discovered method/constructor/global function x
     adversarial argument vectors x call forms, each call inside a script-level
     try/catch: no host exception may escape eval.
+    Generated families on top of the grid: regex-backref (backreference x i flag x \\b \\B ^ $ x subjects that
+    end inside the repeated text, through test/exec/match/replace/split/search/matchAll/RegExp()), argconv (the
+    conversion of an argument or of an element runs script code that shrinks/grows the receiver array), deep
+    (DEEP_N-level arrays / objects / mixed / prototype chains as receiver and argument of every member, global
+    and operator).
 Foreign exceptions are bucketed by (type, innermost microjs frame).
 """
 import json
@@ -405,7 +410,8 @@ def surface_script(exprs):
     # one function per call: the per-function limits of the bytecode format (255 constants) never
     # refuse the batch as a whole
     body = "".join("(function(){ try { %s; } catch (e) { if (typeof e === 'undefined') bad++; } })();\n" % e for e in exprs)
-    return "var bad = 0;\n" + body + "bad"
+    pre = DEEP_PRELUDE if any("DEEP_" in e for e in exprs) else ""
+    return "var bad = 0;\n" + pre + body + "bad"
 
 
 def surface_task(exprs):
@@ -493,6 +499,187 @@ def reentrant_exprs():
         for mut in OBJ_MUT:
             body = "if (n++ < 6) { %s; }" % mut
             out.append(("(function(){ var n = 0; var o = {a: 1, b: 2, c: 3}; return %s; })()" % (site % body), "reentrant.object", "mutate"))
+    return out
+
+
+# ---- regex: backreferences x ignore-case x position assertions x subjects that end inside the repeated text
+# (word, group that captures it); the subject repeats a *prefix* of the word after the separator, so the
+# backreference runs into the end of the input (or of the line) at every possible offset
+RX_GROUPS = [("a", "(a)"), ("ab", "(ab)"), ("hello", "(\\w+)"), ("abc", "([a-c]+)"), ("ab", "(?<n>ab)"), ("Ab", "(ab)"), ("x", "(.)"),
+             ("aaa", "(a*)"), ("ab", "(a|ab)"), ("AbC", "(a(b)c)"), ("ab", "((?:ab)+)"), ("ét", "(\\S+)"), ("ab", "(ab)?")]
+RX_SEPS = [("", ""), (" ", " "), ("  ", "\\s+"), ("-", "-"), ("\n", "\\n"), (" ", "\\b \\b"), ("", "(?:)")]
+RX_REFS = ["\\1", "\\1", "\\1", "\\1\\1", "\\1+", "\\1?", "(?:\\1)*", "\\1{2}", "\\1*?", "(?=\\1)", "(?!\\1)", "\\1|z", "(?:\\1|q)", "\\2", "\\1\\2"]
+RX_TAILS = ["", "\\b", "\\B", "$", "^", "\\b", "\\B", "$", "(?=$)", "(?!x)", "\\b.", "$\\b", ".", "\\b\\B", "\\s*$", "(?:\\b|\\B)", "\\b|^", "(?=\\b)", "(?!\\B)", "\\1\\b"]
+RX_HEADS = ["", "", "", "\\b", "^", "\\B", "(?:^|\\s)", ".*?", "(?<=z)"]
+RX_FLAGS = ["", "i", "i", "i", "g", "gi", "gi", "im", "im", "gim", "iy", "is", "m", "gm", "iu", "gimsy"]
+RX_OPS = ["R.test(S)", "R.exec(S)", "S.match(R)", "S.replace(R, '$1|$&')", "S.replace(R, function(m){ return m.length; })", "S.split(R)", "S.split(R, 2)",
+          "S.search(R)", "S.matchAll && Array.from(S.matchAll(R))", "S.replaceAll && S.replaceAll(R, '-')", "R.lastIndex = S.length; R.exec(S)",
+          "R.lastIndex = S.length - 1; R.test(S)", "[R.test(S), R.test(S), R.exec(S)]", "new RegExp(R.source, R.flags).exec(S)",
+          "new RegExp(R).test(S)", "RegExp(R.source + '\\\\b', 'i').exec(S)"]
+
+
+def _swapcase_some(rnd, w):
+    return "".join(c.swapcase() if rnd.random() < 0.4 else c for c in w)
+
+
+def regex_backref_exprs(chk):
+    """Generated (pattern, flags, subject, operation): a capturing group, a separator, a backreference in one of
+    its quantified / look-around / alternative forms, then a position assertion; the subject repeats k characters
+    (0 <= k <= len) of the captured word, in a possibly different case, and ends there or at a line break."""
+    rnd = random.Random(core.shard_seed(chk.seed, "C04", "regex-backref"))
+    n = 5000 if chk.tier == "quick" else 80000
+    out = []
+    seen = set()
+    while len(out) < n:
+        word, grp = rnd.choice(RX_GROUPS)
+        septext, sep = rnd.choice(RX_SEPS)
+        ref = rnd.choice(RX_REFS)
+        if "?<n>" in grp and rnd.random() < 0.7:
+            ref = ref.replace("\\1", "\\k<n>")
+        pat = rnd.choice(RX_HEADS) + grp + sep + ref + rnd.choice(RX_TAILS)
+        flags = rnd.choice(RX_FLAGS)
+        k = rnd.randint(0, len(word))
+        cut = word[:k]
+        if rnd.random() < 0.5:
+            cut = _swapcase_some(rnd, cut)
+        first = _swapcase_some(rnd, word) if rnd.random() < 0.3 else word
+        subj = rnd.choice(["", "", "z", "z ", "ab ", "\n"]) + first + septext + cut + rnd.choice(["", "", "", "\n", "\nq", " ", "!"])
+        if rnd.random() < 0.15:     # several occurrences for g / split / replace
+            subj = subj + " " + subj
+        op = rnd.choice(RX_OPS)
+        if "/" in pat:
+            continue
+        e = "(function(){ var R = /%s/%s, S = %s; return %s; })()" % (pat, flags, json.dumps(subj), op)
+        if e in seen:
+            continue
+        seen.add(e)
+        cutoff = "cut" if k < len(word) else "whole"
+        out.append((e, "regex.backref", ("i" if "i" in flags else "no-i") + "/" + cutoff))
+    return out
+
+
+# ---- argument conversion mutates the receiver: the valueOf / toString of an *argument* runs script code that
+# shrinks / grows the array the built-in is about to index with a length it read earlier
+CONV_MUT = ["a.length = 0", "a.length = 1", "a.pop()", "a.shift()", "a.splice(0, 2)", "a.push(1, 2, 3, 4, 5, 6, 7, 8)", "a.length = 0; a.push(9)",
+            "while (a.length) a.pop()"]
+CONV_RET = ["0", "2", "-1", "3", "1", "-4", "10"]
+CONV_RECV = {   # receiver kind of RECEIVERS -> (receiver expression inside the case, filler arguments)
+    "array": "a", "string": "s", "uint8array": "t", "float32array": "tf", "int16array": "t16", "arguments": "ar",
+    "Array": "Array", "String": "String", "Math": "Math", "Object": "Object", "JSON": "JSON", "Uint8Array": "Uint8Array", "Number": "Number",
+}
+CONV_FILL = ["9", "1", "a", "2", "undefined", "s", "t", "function(x){ return x; }"]
+CONV_VARS = [("s", "s = 'abcd'"), ("t", "t = new Uint8Array([1, 2, 9, 4])"), ("tf", "tf = new Float32Array([1, 2, 9, 4])"), ("t16", "t16 = new Int16Array([1, 2, 9, 4])"),
+             ("ar", "ar = (function(){ return arguments; })(1, 2, 9, 4)")]
+CONV_M = "function M(f, r){ return {valueOf: function(){ f(); return r; }, toString: function(){ f(); return '' + r; }}; } "
+
+
+def conv_case(body):
+    """A self-contained case: the array a, the mutator factory M and only those other receivers that the body names."""
+    decl = ["a = [1, 2, 9, 4]"] + [d for v, d in CONV_VARS if re.search(r"\b%s\b" % v, body)]
+    return "(function(){ %svar %s; %s; })()" % (CONV_M, ", ".join(decl), body)
+
+
+# consumers that convert the *elements* of an array (the mutator sits inside the array)
+CONV_ELEM_SITES = ["t.set(a)", "new Uint8Array(a)", "new Float64Array(a)", "String.fromCharCode.apply(null, a)", "Math.max.apply(null, a)", "Math.min.apply(Math, a)",
+                   "a.join()", "a.join(a)", "a.toString()", "a.sort()", "String(a)", "'' + a", "a.concat(a).join()", "a.flat && a.flat().join()", "a.reverse().join()",
+                   "a.indexOf(a[1], a[1])", "a.includes(9, a[1])", "a.lastIndexOf(9, a[1])", "a.slice(a[1], a[1])", "a.splice(a[1], a[1])", "a.fill(0, a[1], a[1])",
+                   "a.at && a.at(a[1])", "a.copyWithin && a.copyWithin(a[1], a[1])", "Uint8Array.from && Uint8Array.from(a)", "Array.from(a, Number)", "Array.of.apply(null, a).join()",
+                   "s.concat.apply(s, a)", "s.slice(a[1], a[1])", "s.padStart(a[1], a[1])", "t.fill(a[1], a[1])", "t.subarray(a[1], a[1])", "JSON.stringify(a, null, a[1])",
+                   "JSON.stringify({k: 1}, a)", "Math.hypot.apply(null, a)", "a.map(Number)", "a.reduce(function(p, x){ return p + x; })", "[].push.apply(a, a)", "a.unshift.apply(a, a)",
+                   "new Array(a[1])", "Array.apply(null, a)", "Function.prototype.call.apply(isNaN, a)", "parseInt(a, a[1])"]
+
+
+def _mutator(mut, ret):
+    return "M(function(){ %s; }, %s)" % (mut, ret)
+
+
+def argconv_exprs(chk, found):
+    rnd = random.Random(core.shard_seed(chk.seed, "C04", "argconv"))
+    quick = chk.tier == "quick"
+    out = []
+    for rname, _rexpr, member in found:
+        if rname not in CONV_RECV:
+            continue
+        recv = CONV_RECV[rname]
+        statics = recv[0].isupper()
+        vecs = []
+        combos = [(m, r) for m in CONV_MUT for r in CONV_RET]
+        picked = rnd.sample(combos, (3 if statics else 8) if quick else len(combos))
+        for mut, ret in picked:
+            M = _mutator(mut, ret)
+            if statics:
+                vecs += [("a", M), (M, "a"), ("a", "a", M)]
+            else:
+                vecs += [(M,), ("9", M), (M, "1")]
+        for _ in range((4 if statics else 8) if quick else 120):
+            mut, ret = rnd.choice(combos)
+            M = _mutator(mut, ret)
+            v = [rnd.choice(CONV_FILL) for _ in range(rnd.randint(1, 3))]
+            v[rnd.randrange(len(v))] = M
+            if rnd.random() < 0.3:
+                v.append(_mutator(rnd.choice(CONV_MUT), rnd.choice(CONV_RET)))
+            vecs.append(tuple(v))
+        for v in vecs:
+            w = rnd.random()
+            if statics or w < 0.75:
+                call = "%s.%s(%s)" % (recv, member, ", ".join(v))
+            elif w < 0.9:
+                call = "%s.%s.call(%s)" % (recv, member, ", ".join(("a",) + tuple(v)))
+            else:
+                call = "%s.%s.apply(%s, [%s])" % (recv, member, recv, ", ".join(v))
+            out.append((conv_case("return " + call), "argconv.%s.%s" % (rname, member), "argument"))
+    for site in CONV_ELEM_SITES:
+        for mut in CONV_MUT:
+            for ret in (CONV_RET if not quick else CONV_RET[:2]):
+                for pos in (1, 0, 3):
+                    if quick and pos == 3 and ret != "0":
+                        continue
+                    out.append((conv_case("a[%d] = %s; return %s" % (pos, _mutator(mut, ret), site)), "argconv.element", "element"))
+    return out
+
+
+# ---- deep structures as receivers and arguments: built-ins that walk a value recursively meet DEEP_N levels
+DEEP_N = 2000
+DEEP_PRELUDE = ("var DEEP_A = [], DEEP_O = {}, DEEP_M = [1], DEEP_P = {};\n"
+                "for (var deep_i = 0; deep_i < %d; deep_i++) { DEEP_A = [DEEP_A]; DEEP_O = {k: DEEP_O}; DEEP_M = deep_i %% 2 ? [0, DEEP_M] : {m: DEEP_M, n: 'x'}; "
+                "DEEP_P = Object.create(DEEP_P); }\n" % DEEP_N)
+# every case works on a fresh one-level wrapper, so that a mutating method (pop, fill, length = 0 ...) leaves the shared structure deep
+DEEP_VALUES = {"array": "[DEEP_A]", "object": "({k: DEEP_O})", "mixed": "[DEEP_M, {m: DEEP_M}]", "proto-chain": "Object.create(DEEP_P)"}
+DEEP_OPS = ["'' + d", "d + d", "+d", "-d", "d == 1", "d == 'x'", "d < 1", "d < d", "`${d}`", "({})[d]", "d in {}", "[d] + ''", "d == d", "d ? 1 : 2", "typeof d", "!d", "d | 0",
+            "var o = {}; o[d] = 1; o", "switch (d) { case '': 1; }", "isNaN(d)", "'x'.concat(d)", "[1].concat(d).join()", "[d, d].join(d)", "[[d]].flat && [[d]].flat(Infinity)",
+            "d.flat && d.flat(Infinity)", "d.flat && d.flat(1e9).length", "JSON.stringify(d)", "JSON.stringify(d, null, 2)", "JSON.stringify(d, function(k, v){ return v; })",
+            "JSON.stringify({a: d}, ['a', 'k'])", "JSON.parse(JSON.stringify(d))", "String(d)", "d.toString()", "d.join && d.join()", "d.toLocaleString()", "Object.keys(d)",
+            "Object.values(d)", "Object.entries(d)", "Object.assign({}, d)", "Object.freeze(d)", "d.zzz", "d.hasOwnProperty('zzz')", "'zzz' in d", "d.zzz = 1", "for (var k in d) {}",
+            "d instanceof Array", "Array.prototype.isPrototypeOf(d)", "Object.getPrototypeOf(d)", "new Error(d)", "throw d", "console.log(d)", "console.error(d, d)", "parseInt(d)",
+            "Number(d)", "new RegExp(d)", "'x'.split(d)", "'x'.replace('x', d)", "'x'.replace(/x/, function(){ return d; })", "[3, 1].sort(function(){ return d; })", "new Uint8Array(d)",
+            "new Uint8Array(2).set(d)", "Array.from(d)", "Array.isArray(d)", "[d].indexOf(d)", "[d].includes(d)", "String.fromCharCode(d)", "Math.max(d)", "eval(d)", "new Function(d)",
+            "(function(){ return arguments; })(d).length", "(function(x){ return x; }).apply(null, d)", "(function(x){ return x; }).bind(d)()", "d.constructor(d)"]
+
+
+def deep_exprs(chk, found, gl):
+    rnd = random.Random(core.shard_seed(chk.seed, "C04", "deep"))
+    quick = chk.tier == "quick"
+    out = []
+    kinds = sorted(DEEP_VALUES)
+    for kind in kinds:
+        for op in DEEP_OPS:
+            out.append(("var d = %s; %s" % (DEEP_VALUES[kind], op), "deep.%s.operator" % kind, "operator"))
+    for rname, rexpr, member in found:
+        ks = kinds if not quick else [rnd.choice(kinds[:2]), rnd.choice(kinds)]
+        for kind in sorted(set(ks)):
+            d = DEEP_VALUES[kind]
+            out.append(("%s.%s(%s)" % (rexpr, member, d), "deep.%s.argument" % kind, "argument"))
+            if not quick or rnd.random() < 0.4:
+                out.append(("%s.%s(%s, %s)" % (rexpr, member, rnd.choice(ADV), d), "deep.%s.argument" % kind, "argument"))
+            if rname in ("array", "empty-array", "object", "Object", "Array", "function", "error"):
+                # the deep value as the receiver of the method
+                out.append(("%s.%s.call(%s)" % (rexpr, member, d), "deep.%s.receiver" % kind, "receiver"))
+                out.append(("%s.%s.call(%s, %s)" % (rexpr, member, d, rnd.choice(ADV[:12] + [d])), "deep.%s.receiver" % kind, "receiver"))
+    for g in gl:
+        for kind in kinds:
+            d = DEEP_VALUES[kind]
+            out.append(("%s(%s)" % (g, d), "deep.%s.global" % kind, "call"))
+            out.append(("new %s(%s)" % (g, d), "deep.%s.global" % kind, "new"))
     return out
 
 
@@ -635,7 +822,8 @@ def main(chk):
         "and random prefixes of corpus programs, all repaired to nesting depth <= 30; non-trivial = neither accepted-empty nor "
         "rejected at the first token (syntax error beyond column 1 / line 1, or a runtime outcome). (b) every discovered "
         "function-valued member of 37 receiver kinds and every global function x adversarial argument vectors x call forms; "
-        "non-trivial = every such call (the call reaches the built-in inside try/catch). Distinct by source text / call expression."
+        "non-trivial = every such call (the call reaches the built-in inside try/catch). Distinct by source text / call expression. "
+        "Families regex-backref / argconv / deep: generated from chk.seed, counted under 'surface family ...'."
     )
     chk.assumptions = ["nesting deeper than 30 is out of scope (README: the parser recurses)",
                        "MemoryError under the worker's address-space limit on a huge-operand request is counted resource_excluded (C01 scope note)"]
@@ -719,7 +907,17 @@ def main(chk):
     chk.extra["surface_members"] = len(found)
     chk.extra["surface_globals"] = gl
     exprs = surface_cases(chk, found, gl) + reentrant_exprs()
+    # generated families (each batched with its own kind: the deep ones share one prelude per batch)
+    families = [("regex-backref", regex_backref_exprs(chk)), ("argconv", argconv_exprs(chk, found)), ("deep", deep_exprs(chk, found, gl))]
     batches = pool.chunks(exprs, 150)
+    for fam, fex in families:
+        chk.classify("surface family %s" % fam, len(fex))
+        if fam == "regex-backref":
+            for _e, _m, form in fex:
+                chk.classify("regex-backref: flags/subject %s" % form)
+        # (the engine's front end is superlinear in the length of a script: long cases go in small batches)
+        batches += pool.chunks(fex, {"regex-backref": 100, "argconv": 20, "deep": 60}[fam])
+        exprs = exprs + fex
     res = pool.run(surface_task, [[e for e, _, _ in b] for b in batches], timeout=1200)
     for b, rb in zip(batches, res):
         for e, member, form in b:
@@ -747,7 +945,8 @@ def main(chk):
             if r["cls"] == "MemoryError" and HUGE.search(e):
                 chk.classify("surface: resource_excluded (huge operand)")
                 continue
-            chk.violation("surface|foreign|%s|%s" % (sig_of(r), member.split(".")[0] if "." in member else member), case, "value or JSError",
+            where = r["cls"] if r["cls"] == "RecursionError" else sig_of(r)     # (the frame that overflows the host stack is arbitrary)
+            chk.violation("surface|foreign|%s|%s" % (where, ".".join(member.split(".")[:2]) if member.split(".")[0] in ("deep", "argconv", "regex") else member.split(".")[0] if "." in member else member), case, "value or JSError",
                           [r["cls"], (r.get("message") or "")[:100], r.get("frame")], sub="surface")
     for e, member, form in exprs[:: max(1, len(exprs) // 8)]:
         chk.sample({"sub": "surface", "expr": e[:120], "outcome": "no host exception"}, cls="surf", per_class=8)
